@@ -138,6 +138,16 @@ def option_checks(d, max_perm_levels):
                 except Exception as ex:
                     err = f"raised {type(ex).__name__}: {ex}"
                 out.append((tag, err or "ok"))
+    # the encodings are the library's, whatever the calling scope binds to their names
+    from formulae.categorical import Treatment as _Tr, Sum as _Su
+    shadow = {"Sum": _Tr, "Treatment": _Su, "T": 21.5, "S": None, "C": len}
+    for fm in ("y ~ C(f, Sum('b'))", "y ~ C(f, Treatment('c'))", "y ~ T(f, 'b')", "y ~ S(f, 'a')", "y ~ 0 + C(f, Sum)"):
+        try:
+            A = np.asarray(design_matrices(fm, d, extra_namespace=dict(shadow)).common.design_matrix)
+            B = np.asarray(design_matrices(fm, d).common.design_matrix)
+            out.append((fm + " with user objects named like the encodings", "ok" if np.array_equal(A, B) else "a user object replaced the built-in encoding"))
+        except Exception as ex:
+            out.append((fm + " with user objects named like the encodings", f"raised {type(ex).__name__}: {ex}"))
     # alias equivalences
     for a, b in (("T(f, 'b')", "C(f, Treatment('b'))"), ("S(f, 'a')", "C(f, Sum('a'))"), ("T(f)", "C(f, Treatment)"), ("S(f)", "C(f, Sum)")):
         try:
